@@ -32,7 +32,7 @@ Definition show (r : res zparr) : option (obs ZR) + err :=
   match r with Ok p => inl (Some (observe p)) | Err e => inr e end.
 
 (* ---- ordered instance (comparisons, leading terms) ------------------------------------- *)
-From NP Require Import Order Compare Proxy.
+From NP Require Import Order Compare Proxy ProxyAxis.
 Definition ZO : realDomainType := [realDomainType of Z].
 
 Inductive bexpect := BOk of seq nat & seq bool | BErr of err.
@@ -54,6 +54,12 @@ Definition zargmin g r (p : zparr) : nat := @pargmin ZO g r p.
 Definition zargmax g r (p : zparr) : nat := @pargmax ZO g r p.
 Definition zamin_pos g r (p : zparr) : nat := @pamin_pos ZO g r p.
 Definition zamax_pos g r (p : zparr) : nat := @pamax_pos ZO g r p.
+Definition zargmin_axis g r (p : zparr) lanes : seq nat := @pargmin_axis ZO g r p lanes.
+Definition zargmax_axis g r (p : zparr) lanes : seq nat := @pargmax_axis ZO g r p lanes.
+Definition zamin_axis g r (p : zparr) lanes : seq nat := @pamin_axis ZO g r p lanes.
+Definition zamax_axis g r (p : zparr) lanes : seq nat := @pamax_axis ZO g r p lanes.
+Definition among (pos : seq nat) (cands : seq (seq nat)) : bool :=
+  (size pos == size cands) && all (fun pc => pc.1 \in pc.2) (zip pos cands).
 Definition zlead_coefficient g r (p : zparr) : seq Z := @lead_coefficient ZO g r p.
 
 (* ---- queries (C19) -------------------------------------------------------------------------- *)
